@@ -1,6 +1,6 @@
 (* Spec/All.v — registry of the reference orders, by name, for the driver. *)
 From Verif.Base Require Import Bytes.
-From Verif.Spec Require SemVer Pep440 Rpm MavenCV GemVersion Apk.
+From Verif.Spec Require SemVer Pep440 Rpm MavenCV GemVersion Apk Dpkg.
 
 Record spec := {
   sp_name : bytes;
@@ -21,6 +21,7 @@ Definition specs : list spec := [
   semver_like $"nuget" SemVer.den_nuget;
   semver_like $"golang" SemVer.den_golang;
   {| sp_name := $"pypi"; sp_valid := Pep440.spec_valid; sp_cmp := Pep440.spec_cmp |};
+  {| sp_name := $"debian"; sp_valid := Dpkg.spec_valid; sp_cmp := Dpkg.spec_cmp |};
   {| sp_name := $"rpm"; sp_valid := Rpm.spec_valid; sp_cmp := Rpm.spec_cmp |};
   {| sp_name := $"maven"; sp_valid := MavenCV.spec_valid; sp_cmp := MavenCV.spec_cmp |};
   {| sp_name := $"gem"; sp_valid := GemVersion.spec_valid; sp_cmp := GemVersion.spec_cmp |};
